@@ -1,6 +1,6 @@
 from harness.props import _hier
 LEVEL = _hier.LEVEL
-EXTRA_PROPS_FILES = ["Scfg/Props/C04Walks.lean"]
+EXTRA_PROPS_FILES = ["Scfg/Props/C04Walks.lean", "Scfg/Props/C04Total.lean"]
 
 
 def run(ctx):
